@@ -39,6 +39,10 @@ TEXT = {
         "level": "Proof of 'at most once' and 'only launched from the resolved map': a start requires to_execute and clears it, starts <= 1 + invalidation stimuli received, a single build in flight (Fuse::set requires the fuse idle), no Invalidated is ever sent without a stimulus and no watcher exists in one-shot mode, an actor is launched at most once and only for an id of the resolved map, duplicate requests change nothing.",
         "note": ACT_NOTE + " 'At least once' is C04's liveness. 'Only the closure is loaded' is C09 (CFG unit).",
     },
+    "C09": {
+        "level": "Proof, for every configuration and request: try_into_domain_targets returns Ok(m) only if every root is a key of m, every dependency (declared or implied by X.output) of every key is a key (closedness), m is keyed by each target's own id, every X.output producer is a build target; a missing project or target gives Err; a target that is its own ancestor gives Err; cleaning and the engine receive only the resolved map (the main block is outlined with the resolved map as its only view of the configuration). Not yet proved: termination of the recursion (decreases measure) and that every key is reachable from a root.",
+        "note": "Assumed: transform_target's contract (id, parsed dependency lists, producers of X.output inputs; A-yaml), derived Hash/Eq/Clone, vstd std specs + get_mut/remove_entry, slice contains/concat stubs (A-std, A-all).",
+    },
     "C10": {
         "level": "Proof of the resource half: build_target waits for (and on cancellation kills) the child on every return path; stop_service leaves no child un-killed/un-waited and the service actor ends with it; a build actor leaves its loop only with no build in flight and after a cancellation was sent; terminate() sends a termination message to every launched actor and joins every task; both relay loops leave after the termination arm; relay sends cannot block. Promptness is not claimed.",
         "note": ACT_NOTE + " Not covered: any latency bound; grandchildren of the shell; the signal-handler task.",
@@ -50,6 +54,14 @@ TEXT = {
     "C12": {
         "level": "Proof of a frame condition over a ghost deletion log, for every target map and flag combination: every deletion made by the clean part of main is (a) a file of the listing of an output resource with extensions, (b) a declared output path of a resource without extensions, (c) the state file of a target of the resolved map (only with --clean T...), or (d) <project_dir>/.zinoma of a loaded project (only with --clean alone); without --clean nothing is deleted; with --clean alone the engine is not started; delete_saved_env_state removes exactly the target's own record (INC), so by C02.needs-record a cleaned target cannot be skipped.",
         "note": "Assumed: the listing function and remove_file/remove_dir_all as ghost-world operations, in particular that neither follows symbolic links (A-fs); clap flags (A-clap); derived Hash/Eq (A-hash); vstd specs incl. HashMap::values iteration (A-std).",
+    },
+    "C13": {
+        "level": "Proof for the resolver half: every X.output producer is appended to the consumer's dependencies (so it is built first: C01), is a build target, and the consumer's input files and commands become exactly its own followed by each producer's output resources in order, taken from the resolved producer (whose paths and command directories are already bound to its own project); Resources::extend keeps order and drops nothing. Decision half: C02/C03 obligations quantify over arbitrary resource lists, so they cover inherited ones; the command key distinguishes directory and text; get_cmd_stdout runs in the resource's own directory.",
+        "note": "Assumed: transform_target (paths joined to the declaring project's directory), A-fs, A-cmd, A-codec, A-all.",
+    },
+    "C14": {
+        "level": "Proof of the uniqueness/determinism half only: yaml::Config::load returns Ok only if no two loaded projects carry the same name; an import is accepted only if the imported project has a name equal to the import key; the name-keyed project map built from the loaded projects maps every project's name to a loaded project of that name. Totality and strictness of parsing are not applicable (third-party parser, no contract in reach).",
+        "note": "Assumed: load_project / canonicalize_dir (A-yaml), collect into a HashMap (A-all), String extensionality, vstd specs.",
     },
     "C16": {
         "level": "Proof, for every path and event: is_tmp_editor_file is total (no unwrap: a path without file name is not a temporary; non-UTF-8 names are decoded lossily) and equals `*~` or (`.*` and (`*.swp` or `*.swx`)); the event filter is exactly not-temporary and not-under-.zinoma and extension-match; a notify error or an event without relevant path sends nothing, an event with a relevant path does exactly one try_send whose full-slot result is not an error; a missing watched path is skipped, every declared path is handed to notify.",
